@@ -20,15 +20,23 @@ from .common import SPEC, MachineryError
 JAR = "/opt/veriftools/tla/tla2tools.jar:/opt/veriftools/tla/CommunityModules-deps.jar"
 
 
+# loaded at import time: the function below runs in the forked child, where an import could block for ever on an
+# import lock that another thread of the parent held at fork time
+try:
+    import ctypes as _ctypes
+
+    _LIBC = _ctypes.CDLL("libc.so.6", use_errno=True)
+except Exception:  # noqa: BLE001 - best effort
+    _LIBC = None
+
+
 def _die_with_parent():
     """The JVM gets SIGKILL when the checking process dies (a killed check must not leave a model checker running)."""
-    try:
-        import ctypes
-        import signal
-
-        ctypes.CDLL("libc.so.6", use_errno=True).prctl(1, signal.SIGKILL)  # PR_SET_PDEATHSIG
-    except Exception:  # noqa: BLE001 - best effort
-        pass
+    if _LIBC is not None:
+        try:
+            _LIBC.prctl(1, 9)  # PR_SET_PDEATHSIG, SIGKILL
+        except Exception:  # noqa: BLE001 - best effort
+            pass
 
 
 class TLCResult:
